@@ -202,7 +202,12 @@ func (s *sharedEntryAttributes) toXmlInternal(parent *etree.Element, onlyNewOrUp
 		// check if the element remains to exist
 		if s.shouldDelete() {
 			// if not, add the remove / delete op
-			utils.AddXMLOperation(parent.CreateElement(s.pathElemName), utils.XMLOperationDelete, operationWithNamespace, useOperationRemove)
+			delElem := parent.CreateElement(s.pathElemName)
+			// the element to be deleted needs its namespace as well, if it differs from the one of the enclosing element
+			if s.parent != nil && !s.parent.IsRoot() {
+				xmlAddNamespaceConditional(s, s.parent, delElem, honorNamespace)
+			}
+			utils.AddXMLOperation(delElem, utils.XMLOperationDelete, operationWithNamespace, useOperationRemove)
 			// see case nil for an explanation of this, it is basically the same
 			if s.parent.GetSchema() == nil {
 				xmlAddKeyElements(s.parent, parent)
